@@ -4,6 +4,7 @@ import (
 	"bytes"
 	"encoding/gob"
 	"fmt"
+	"syscall"
 
 	"github.com/criyle/go-sandbox/pkg/unixsocket"
 )
@@ -51,6 +52,11 @@ func (s *socket) RecvMsg(e any) (msg unixsocket.Msg, err error) {
 	s.recvBuff.Rotate(bytes.NewBuffer(s.buff[:n]))
 
 	if err := s.decoder.Decode(e); err != nil {
+		// the message is rejected: do not leak the descriptors that arrived with it
+		for _, fd := range msg.Fds {
+			syscall.Close(fd)
+		}
+		msg.Fds = nil
 		return msg, fmt.Errorf("recv msg: decode: %w", err)
 	}
 	return msg, nil
